@@ -46,9 +46,31 @@ def tzkind(d):
     return type(tz).__module__.split(".")[0] + "." + type(tz).__name__
 
 
+_NAMES = None
+
+
+def _names():
+    global _NAMES
+    if _NAMES is None:
+        _NAMES = frozenset(tzref.zone_names())
+    return _NAMES
+
+
 def dt_key(d):
     """Implementation key: everything observable through the public accessors."""
     return (type(d).__name__, fields(d), offset_s(d), d.fold, getattr(d, "timezone_name", None), tzkind(d))
+
+
+def obs_key(d):
+    """Observable key: like dt_key, but the raw fold flag only where it selects the instant
+    (on an unambiguous wall time it is inert: no accessor depends on it)."""
+    f = fields(d)
+    zn = getattr(d, "timezone_name", None)
+    fold = None
+    if isinstance(zn, str) and zn in _names():
+        if len(tzref.zone(zn).solve(wall_us(f) // US)) >= 2:
+            fold = d.fold
+    return (f, offset_s(d), fold, zn)
 
 
 def utc_dt(pendulum, inst_us):
